@@ -111,6 +111,9 @@ func Generate(r *vk.RNG, p Profile) *App {
 			k := r.Range(2, 6)
 			sets := make([][]uint32, k)
 			sets[k-1] = []uint32{6}
+			if p.Hostile {
+				sets[k-1] = []uint32{uint32(r.Intn(6)), 6} // a reserved flag in front of TERMINATE
+			}
 			f.FlagSet = sets
 		}
 		if p.LoadErrors && r.Chance(1, 5) {
@@ -239,6 +242,9 @@ func (g *gen) funcSpec(si symInfo) *FuncSpec {
 		k := r.Range(1, 4)
 		sets := make([][]uint32, k)
 		sets[k-1] = []uint32{6}
+		if p.Hostile {
+			sets[k-1] = []uint32{uint32(r.Intn(6)), 6} // a reserved flag in front of TERMINATE: skipped, the rest applies
+		}
 		f.FlagSet = sets
 		f.FlagReset = nil
 	}
